@@ -51,6 +51,7 @@ pub struct HookStats {
     pub cuts_same_slot: u64,
     pub aux_mismatch: u64,
     pub neg_lookaround_fails: u64,
+    pub uncounted_resumes: u64,
     pub shadow_checks: u64,
     pub shadow_faults: u64,
     pub first_fault: Option<String>,
@@ -71,6 +72,7 @@ impl HookStats {
         self.cuts_same_slot += o.cuts_same_slot;
         self.aux_mismatch += o.aux_mismatch;
         self.neg_lookaround_fails += o.neg_lookaround_fails;
+        self.uncounted_resumes += o.uncounted_resumes;
         self.shadow_checks += o.shadow_checks;
         self.shadow_faults += o.shadow_faults;
         if self.first_fault.is_none() {
@@ -81,7 +83,7 @@ impl HookStats {
         json!({"hooks_enabled": HOOKS, "vm_runs": self.runs, "insns": self.insns, "backtracks": self.backtracks, "pushes": self.pushes,
             "pops": self.pops, "peak_branch_stack": self.peak_branch_stack, "peak_oldsave": self.peak_oldsave,
             "delegate_calls": self.delegate_calls, "aux_pushes": self.aux_pushes, "cuts": self.cuts, "cuts_multi": self.cuts_multi,
-            "cuts_same_slot": self.cuts_same_slot, "aux_mismatch": self.aux_mismatch, "negative_lookaround_failures_checked": self.neg_lookaround_fails, "shadow_checks": self.shadow_checks,
+            "cuts_same_slot": self.cuts_same_slot, "aux_mismatch": self.aux_mismatch, "negative_lookaround_failures_checked": self.neg_lookaround_fails, "uncounted_resumes": self.uncounted_resumes, "shadow_checks": self.shadow_checks,
             "shadow_faults": self.shadow_faults})
     }
 }
@@ -118,6 +120,7 @@ pub fn hook_take() -> HookStats {
         cuts_same_slot: s.cuts_same_slot,
         aux_mismatch: s.aux_mismatch,
         neg_lookaround_fails: s.neg_lookaround_fails,
+        uncounted_resumes: s.uncounted_resumes,
         shadow_checks: s.shadow_checks,
         shadow_faults: s.shadow_faults,
         first_fault: s.first_fault,
